@@ -10,6 +10,10 @@
 (G) verifier: TLC generates the class table (r, s classes x encoding classes x digest classes x key classes) with
     the bytes for each case (EcdsaEval `vgen`); the implementation's verify / Signature.parse_bytes answers are judged
     by TLC (`vcase`, `pcase`).  (V) randomly mutated encodings are classified by TLC (`denote`) and judged the same way.
+(G) environment: TLC enumerates the behaviours of spec/EcdsaEnv.tla (Seed / SaveState / RestoreState / ForkSign on the
+    ambient pseudo-random generators interleaved with sign calls, MC_EcdsaEnv model-checks them); each is replayed with
+    random.seed / numpy.random.seed, getstate / setstate and os.fork around real sign calls and the recorded r, s are judged
+    by TLC (`envgen`, `envtrace`).
 Python only generates inputs, transports values and evaluates the primitives (harness/ref.py).
 """
 import itertools
@@ -221,8 +225,74 @@ def _do_verify(c):
     return {'obs': res, 'parsed': parsed, 'oncurve': pt is not None, 'eq': eq, 'eqt': eqt}
 
 
+def _do_env(b):
+    """Replay one behaviour of spec/EcdsaEnv.tla: the environment's actions on the ambient pseudo-random generators
+    (random, numpy.random) interleaved with sign calls; returns what every sign call produced."""
+    import json
+    import os
+    import random
+    from bitcoinlib.keys import sign
+    try:
+        import numpy
+    except Exception:       # numpy is optional
+        numpy = None
+
+    def do_sign(st):
+        kw = {}
+        if st['mode'] == 'random':
+            kw['use_rfc6979'] = False
+        elif st['mode'] == 'explicit':
+            kw['k'] = int(b['ks'][str(st['kk'])], 16)
+        try:
+            sg = sign(bytes.fromhex(b['zs'][str(st['z'])]), b['keys'][str(st['key'])], **kw)
+            return {'refused': False, 'r': '%x' % int(sg.r), 's': '%x' % int(sg.s)}
+        except Exception as e:
+            return {'refused': True, 'err': repr(e)[:200]}
+
+    saved = None
+    out = []
+    for st in b['steps']:
+        a = st['a']
+        if a in ('seed1', 'seed2'):
+            random.seed(b['seeds'][a])
+            if numpy:
+                numpy.random.seed(b['seeds'][a] % (1 << 32))
+        elif a == 'save':
+            saved = (random.getstate(), numpy.random.get_state() if numpy else None)
+        elif a == 'restore':
+            random.setstate(saved[0])
+            if numpy:
+                numpy.random.set_state(saved[1])
+        elif a == 'sign':
+            out.append(do_sign(st))
+        elif a == 'forksign':       # the call runs in a forked child, which inherits the ambient state
+            rfd, wfd = os.pipe()
+            pid = os.fork()
+            if pid == 0:
+                try:
+                    os.close(rfd)
+                    os.write(wfd, json.dumps(do_sign(st)).encode())
+                finally:
+                    os._exit(0)
+            os.close(wfd)
+            data = b''
+            while True:
+                chunk = os.read(rfd, 65536)
+                if not chunk:
+                    break
+                data += chunk
+            os.close(rfd)
+            os.waitpid(pid, 0)
+            out.append(json.loads(data.decode()) if data else {'refused': True, 'err': 'forked child returned nothing'})
+        else:
+            raise ValueError(a)
+    return out
+
+
 def _job(job):
     t = job['t']
+    if t == 'env':
+        return [_do_env(b) for b in job['behs']]
     if t == 'sign':
         out = []
         for req in job['reqs']:
@@ -509,6 +579,8 @@ def run(replay=None):
                       'a nonce is identified by r = x(kG) mod n (k and n-k share it)',
                       'a 64-byte input is r||s by interface contract; DER inputs carry the hash-type byte',
                       'refusing BER-valid but non-strict encodings (and DER without hash type) is permitted',
+                      'ambient state of a sign call = the process-wide generators of random and numpy.random (seeded, saved, '
+                      'restored, inherited by a forked child); other ambient sources (clock, pid) are not modelled',
                       'a digest is 32 arbitrary bytes given as bytes or as hex text of any letter case; all representations '
                       'denote the same message (digest classes include bytes that look like hex text, digits, whitespace, '
                       'printable ASCII)']
@@ -523,6 +595,8 @@ def run(replay=None):
     # ---------------- (M)
     ck.model(common.model_check('MC_Ecdsa', 'MC_Ecdsa_thorough.cfg' if thorough else 'MC_Ecdsa.cfg', workers=8,
                                 expect_actions=['SpecSign', 'BadSign']))
+    ck.model(common.model_check('MC_EcdsaEnv', 'MC_EcdsaEnv_thorough.cfg' if thorough else 'MC_EcdsaEnv.cfg', workers=4,
+                                expect_actions=['Step']))
 
     phase('model')
     # ---------------- inputs
@@ -533,6 +607,7 @@ def run(replay=None):
         case = replay['case']
         sessions = [('replay', case['reqs'])] if case.get('kind') == 'sign' else []
         vcases = [case['vcase']] if case.get('kind') == 'verify' else []
+        envs = [case['beh']] if case.get('kind') == 'env' else []
     else:
         sessions = gen_sessions(rng, thorough, zforms)
         vcases = []
@@ -548,8 +623,25 @@ def run(replay=None):
         grecs = [{'k': 'vgen', 'r': bl(b['r']), 's': bl(b['s']), 'z': list(b['z'].to_bytes(32, 'big')),
                   'ht': rng.choice([1, 1, 0x83, 2]), 'lite': bool(b.get('lite'))} for b in bases]
         grecs += [{'k': 'denote', 'sig': list(m)} for _, m in muts]
+        # the environment of a sign call (EcdsaEnv): TLC enumerates the behaviours
+        grecs += [{'k': 'envgen', 'plans': ['random', 'mixed'], 'maxlen': 5 if thorough else 4},
+                  {'k': 'envgen', 'plans': ['det', 'explicit'], 'maxlen': 4 if thorough else 3}]
         gout = spread_eval(grecs, PROCS // 2)
-        gen, den = gout[:len(bases)], gout[len(bases):]
+        gen, den = gout[:len(bases)], gout[len(bases):len(bases) + len(muts)]
+        envs = []
+        for g in gout[len(bases) + len(muts):]:
+            for bh in g['behs']:
+                ks = [rng.randrange(1, N) for _ in range(2)]
+                envs.append({'plan': bh['plan'], 'steps': bh['steps'],
+                             'keys': {'1': h32(rand_scalar(rng)), '2': h32(rand_scalar(rng))},
+                             'zs': {'1': h32(rand_digest(rng)), '2': h32(rand_digest(rng))},
+                             'ks': {'1': '%x' % ks[0], '2': '%x' % ks[1]},
+                             'seeds': {'seed1': rng.randrange(1 << 30), 'seed2': rng.randrange(1 << 30)}})
+        for e in envs:      # distinct arguments per behaviour (input generation)
+            if e['keys']['1'] == e['keys']['2'] or e['zs']['1'] == e['zs']['2'] or e['seeds']['seed1'] == e['seeds']['seed2']:
+                e['keys']['2'] = h32((int(e['keys']['1'], 16) + 1) % N or 2)
+                e['zs']['2'] = h32((int(e['zs']['1'], 16) + 1) % (1 << 256))
+                e['seeds']['seed2'] = e['seeds']['seed1'] + 1
         for b, g in zip(bases, gen):
             kv = key_variants(rng, b['Q'])
             for c in g['cases']:
@@ -574,9 +666,13 @@ def run(replay=None):
     jobs = [{'t': 'sign', 'reqs': reqs} for _, reqs in sessions]
     chunk = 150
     jobs += [{'t': 'verify', 'cases': vcases[i:i + chunk]} for i in range(0, len(vcases), chunk)]
+    nver = len(jobs) - len(sessions)
+    echunk = max(1, (len(envs) + PROCS - 1) // PROCS)
+    jobs += [{'t': 'env', 'behs': envs[i:i + echunk]} for i in range(0, len(envs), echunk)]
     results = common.pmap(_job, jobs, procs=PROCS)
     sign_res = results[:len(sessions)]
-    ver_res = [x for chunk_res in results[len(sessions):] for x in chunk_res]
+    ver_res = [x for chunk_res in results[len(sessions):len(sessions) + nver] for x in chunk_res]
+    env_res = [x for chunk_res in results[len(sessions) + nver:] for x in chunk_res]
 
     phase('drive bitcoinlib + reference facts')
     # ---------------- signing traces -> TLC
@@ -632,8 +728,32 @@ def run(replay=None):
                 vrecs.append({'k': 'vcase', 'sig': hb(o['der']), 'oncurve': True, 'eq': True, 'fr': hb(rr), 'fs': hb(ss),
                               'eqt': False, 'tr': [], 'ts': [], 'obs': obs})
                 vidx.append((c, api, {'obs': o['selfv']}))
-    allverd = spread_eval(recs + vrecs, PROCS)
-    verd, vverd = allverd[:len(recs)], allverd[len(recs):]
+    # behaviours of the environment: the recorded r, s of every sign call
+    erecs, eidx = [], []
+    for e, obs in zip(envs, env_res):
+        signs = [st for st in e['steps'] if st['a'] in ('sign', 'forksign')]
+        klass = ('env', e['plan'], tuple(st['a'] for st in e['steps']))
+        if len(obs) != len(signs) or any(o.get('refused') for o in obs):
+            ck.case(klass)
+            ck.violation(None, 'environment behaviour %s: clause sign-refused; %s' % (env_short(e), [o.get('err') for o in obs]),
+                         {'kind': 'env', 'beh': e})
+            continue
+        evs = []
+        for st, o in zip(signs, obs):
+            rr, ss = o['r'].zfill(len(o['r']) + len(o['r']) % 2), o['s'].zfill(len(o['s']) + len(o['s']) % 2)
+            kk = e['ks'][str(st['kk'])]
+            evs.append({'mode': st['mode'], 'key': e['keys'][str(st['key'])], 'z': e['zs'][str(st['z'])], 'rep': 'bytes',
+                        'r': hb(rr), 's': hb(ss), 'k': hb(kk.zfill(len(kk) + len(kk) % 2)) if st['mode'] == 'explicit' else []})
+        erecs.append({'k': 'envtrace', 'events': evs})
+        eidx.append((e, klass, obs))
+    allverd = spread_eval(recs + vrecs + erecs, PROCS)
+    verd, vverd, everd = allverd[:len(recs)], allverd[len(recs):len(recs) + len(vrecs)], allverd[len(recs) + len(vrecs):]
+    for (e, klass, obs), v in zip(eidx, everd):
+        ck.case(klass)
+        for i, fails in enumerate(v['evs']):
+            for f in fails:
+                ck.violation(f['dev'] or None, 'environment behaviour %s: clause %s at sign call %d; r of the calls: %s' % (
+                    env_short(e), f['v'], i + 1, [o['r'] for o in obs]), {'kind': 'env', 'beh': e})
     reported = set()
     for (ti, good), v in zip(index, verd):
         kind, evs = traces[ti]
@@ -679,7 +799,19 @@ def run(replay=None):
     ck.notes['signing_sessions'] = len(traces)
     ck.notes['verifier_cases'] = len(vcases)
     ck.notes['verifier_answers_judged'] = len(vrecs)
+    ck.notes['environment_behaviours_replayed'] = len(envs)
     return ck.finish()
+
+
+def env_short(e):
+    out = []
+    for st in e['steps']:
+        if st['a'] in ('sign', 'forksign'):
+            out.append('%s(key%d, msg%d, %s%s)' % (st['a'], st['key'], st['z'], st['mode'],
+                                                  ' k%d' % st['kk'] if st['mode'] == 'explicit' else ''))
+        else:
+            out.append(st['a'])
+    return '[%s] ' % e['plan'] + ' ; '.join(out)
 
 
 def ref_der(r, s):
